@@ -219,6 +219,60 @@ def twin_block_values(flag: bool, num: int, text: str, raise_inside: bool, set_i
     return check_block_values(flag, num, text, raise_inside, set_inside)
 
 
+# ---------------------------------------------------------------------------- one object, entered again while active
+def _decorated(v: bool, fail: bool, s0: bool, s1: bool, depth: int) -> bool:
+    """One global_options object used as a decorator on a function that calls itself: the same object is entered again while
+    it is active; every level must restore what *it* found, for a normal return and for an exception."""
+    opt = Opt()
+    opt.set_options(**{K1: s0, K2: s1})
+    saved = opt.get_options()
+    deco = opt.global_options(**{K1: v})
+    ok = [True]
+
+    @deco
+    def descend(d: int) -> None:
+        inner = dict(saved)
+        inner[K1] = v
+        if d < depth:
+            inner[K2] = not v  # set by the level above
+        if not same(opt.get_options(), inner):
+            ok[0] = False
+        if d:
+            opt.set_options(**{K2: not v})
+            try:
+                descend(d - 1)
+            finally:
+                back = dict(saved)
+                back[K1] = v
+                back[K2] = not v
+                if not same(opt.get_options(), back):
+                    ok[0] = False
+        elif fail:
+            raise Boom()
+
+    try:
+        descend(depth)
+    except Boom:
+        pass
+    return ok[0] and same(opt.get_options(), saved)
+
+
+def check_decorated(v: bool, fail: bool, s0: bool, s1: bool, depth: int) -> bool:
+    """
+    pre: 0 <= depth <= 2
+    post: _
+    """
+    return _decorated(v, fail, s0, s1, depth)
+
+
+def twin_decorated(v: bool, fail: bool, s0: bool, s1: bool, depth: int) -> bool:
+    """
+    pre: 0 <= depth <= 2
+    post: not _
+    """
+    return _decorated(v, fail, s0, s1, depth)
+
+
 # ---------------------------------------------------------------------------- unknown names
 def _unknown(name: str, v: bool, in_block: bool, junk: Any = 1) -> bool:
     opt = Opt()
